@@ -181,7 +181,6 @@ def run(chk):
                 lines = [l for l in text.split(b"\n") if not l.startswith(f[1].encode() + b":")]
                 docs.append((tname, b"\n".join(lines), f[1]))
             docs.append((tname, gen.mutate(rng, text, [b"\n", b" ", b":", b",", b"x", b"-", b"1", b"yes", b"|"]), None))
-    docs = [d for d in docs if not debgen.has_uspace(d[1])]
     ucases = [("cunmarshal", [t.encode(), text]) for t, text, _ in docs]
     ui, um = chk.run_both(ucases)
     chk.compare("unmarshal-documents", ucases, ui, um)
